@@ -18,6 +18,11 @@
      o             data channel opens, handler serves (stays open);  + the same without a poll
                    (driver shortcut: a bare tokens.get())
      q             data channel opens, relay unreachable: the handler ends at once
+     O<x> Q<x>     the sessions o and q with a client whose offer looks different: x = p as produced (a
+                   public-looking host candidate), l only local addresses (RFC1918/CGNAT/link-local/loopback/
+                   ULA candidates, unspecified c= line: webRTCConn.RemoteAddr() is nil), n no candidates,
+                   6 IPv6 candidates only, m mDNS candidates only; x = u: an unordered, unreliable data
+                   channel with an empty label.  The machine does not distinguish them from o and q.
      A             /answer fails AFTER the client opened the data channel and the handler started
      c<i> d<i> -<i>  the handler of session i ends (client closes / relay closes / bare ret)
    result: per op  c<count>h<len(ch)>p<polls of the op, '.'-separated | ->, each poll being
@@ -57,7 +62,16 @@ Definition op_labels (v : version) (sid : nat) (t : bytes) : option (list label 
                       match v with V0 => [LClose; LMainRecv] | V1 => [] end, true)
       else None
   | c :: d =>
-      if existsb (N.eqb c) [99; 100; 45]%N
+      if ((c =? 79) || (c =? 81))%N then
+        (* O<x> / Q<x>: the sessions o / q with a client whose offer (x = p l n 6 m) or data channel (u) has
+           another shape; the machine does not distinguish them *)
+        match d with
+        | [x] => if existsb (N.eqb x) [112; 108; 110; 54; 109; 117]%N
+                 then Some (if (c =? 79)%N then opened sid else opened sid ++ [LH sid HEnd; LH sid HRecv], true)
+                 else None
+        | _ => None
+        end
+      else if existsb (N.eqb c) [99; 100; 45]%N
       then match dec_parse_nat d with Some i => Some (ends [i], true) | None => None end
       else if (c =? 119)%N
       then match map_opt round_parse (split_on 47%N d) with
